@@ -193,7 +193,7 @@ structure Method where
 			ws = append(ws, fmt.Sprintf("(%s, %s)", LeanStr(wt[0]), LeanStr(wt[1])))
 		}
 		rows = append(rows, fmt.Sprintf("  { name := %s, waits := [%s], queueOps := %s, through := %s, probes := %s }",
-			LeanStr(name), strings.Join(ws, ", "), LeanStrList(queueOps), leanBool21(through), LeanStrList(probes)))
+			LeanStr(name), strings.Join(ws, ", "), LeanStrList(queueOps), c21LeanBool(through), LeanStrList(probes)))
 	}
 	sort.Strings(rows)
 	fmt.Fprintln(w, strings.Join(rows, ",\n"))
@@ -326,7 +326,7 @@ structure Method where
 	return nil
 }
 
-func leanBool21(b bool) string {
+func c21LeanBool(b bool) string {
 	if b {
 		return "true"
 	}
